@@ -445,10 +445,11 @@ func typeCheckWith(genDir string) (*tcResult, error) {
 // ---- running the real command ----
 
 type c19Env struct {
-	fitgen  string
-	scratch string
-	n       int
-	w       *vx.W
+	fitgen   string
+	scratch  string
+	n        int
+	w        *vx.W
+	extraEnv []string
 }
 
 // alive: the command under test must still be where the harness built it; anything else is a harness problem and
@@ -460,6 +461,13 @@ func (e *c19Env) alive() {
 }
 
 func (e *c19Env) run(input string, sdk string) (string, string, error) {
+	return e.runOver(input, sdk, "")
+}
+
+// runProcs: like run, with GOMAXPROCS set for the command.
+func (e *c19Env) runProcs(input string, sdk string, procs string) (string, string, error) {
+	e.extraEnv = []string{"GOMAXPROCS=" + procs}
+	defer func() { e.extraEnv = nil }()
 	return e.runOver(input, sdk, "")
 }
 
@@ -505,7 +513,28 @@ func (e *c19Env) runOver(input string, sdk string, earlier string) (string, stri
 	args = append(args, input, out)
 	cmd := exec.Command(e.fitgen, args...)
 	cmd.Dir = repoRoot
-	cmd.Env = goEnv()
+	cmd.Env = append(goEnv(), e.extraEnv...)
+	b, err := cmd.CombinedOutput()
+	return out, string(b), err
+}
+
+// runPrepared: like run, but the output directory already holds the given files.
+func (e *c19Env) runPrepared(input string, sdk string, files map[string][]byte) (string, string, error) {
+	e.alive()
+	e.n++
+	out := filepath.Join(e.scratch, fmt.Sprintf("out%d", e.n))
+	os.MkdirAll(out, 0o755)
+	for n, b := range files {
+		os.WriteFile(filepath.Join(out, n), b, 0o644)
+	}
+	args := []string{}
+	if sdk != "" {
+		args = append(args, "-sdk", sdk)
+	}
+	args = append(args, input, out)
+	cmd := exec.Command(e.fitgen, args...)
+	cmd.Dir = repoRoot
+	cmd.Env = append(goEnv(), e.extraEnv...)
 	b, err := cmd.CombinedOutput()
 	return out, string(b), err
 }
@@ -725,6 +754,20 @@ func runC19(w *vx.W) {
 				os.RemoveAll(do)
 				w.Fam("sdk-flag-with-zip", 2)
 			}
+			// the command under other processor counts (a single-CPU container, an odd count)
+			if errx == nil {
+				for _, g := range []string{"1", "3"} {
+					dp, logp, errp := env.runProcs(writeTemp(scratch, "stock.xlsx", data), ver, g)
+					w.Eval(1)
+					w.Fam("processor-counts", 1)
+					if errp != nil {
+						w.Violation("fitgen-fails", fmt.Sprintf("workbook %s under GOMAXPROCS=%s: fitgen exits with %v: %s", ver, g, errp, trunc(lastLines(logp, 3), 400)), rep)
+					} else if d := dirsEqual(dp, dx); d != "" {
+						w.Violation("output-depends-on-processor-count", fmt.Sprintf("workbook %s: output under GOMAXPROCS=%s differs from the output under the default processor count: %s", ver, g, d), rep)
+					}
+					os.RemoveAll(dp)
+				}
+			}
 			// the output directory given as a relative path (the command started elsewhere than in the repository)
 			if errx == nil {
 				for _, rel := range []string{"gen", "src/fit", "."} {
@@ -738,6 +781,61 @@ func runC19(w *vx.W) {
 					}
 					os.RemoveAll(cwdr)
 				}
+			}
+			// the output directory as an environment answer: it already holds this very output except for one file,
+			// which is the same-named file generated from another SDK version, or cut in half (an interrupted
+			// earlier run, a hand-edited table) — the finished run must leave exactly the fresh output
+			if errx == nil {
+				other := "16.20"
+				if ver == other {
+					other = "21.40"
+				}
+				od, _ := os.ReadFile(filepath.Join(tdDir, other+".xlsx"))
+				dother, _, erro := env.run(writeTemp(scratch, "other.xlsx", od), other)
+				var gn []string
+				for n := range generatedNames {
+					gn = append(gn, n)
+				}
+				sort.Strings(gn)
+				modes := []string{"from-another-sdk-version", "cut-in-half"}
+				if thorough {
+					modes = append(modes, "empty")
+				}
+				for _, n := range gn {
+					for _, mode := range modes {
+						files := map[string][]byte{}
+						for _, m := range gn {
+							b, err := os.ReadFile(filepath.Join(dx, m))
+							if err != nil {
+								continue
+							}
+							if m == n {
+								switch mode {
+								case "from-another-sdk-version":
+									if erro != nil {
+										continue
+									}
+									b, _ = os.ReadFile(filepath.Join(dother, m))
+								case "cut-in-half":
+									b = b[:len(b)/2]
+								case "empty":
+									b = nil
+								}
+							}
+							files[m] = b
+						}
+						dp, logp, errp := env.runPrepared(writeTemp(scratch, "stock.xlsx", data), ver, files)
+						w.Eval(1)
+						w.Fam("output-directory-already-holds-files", 1)
+						if errp != nil {
+							w.Violation("fitgen-fails", fmt.Sprintf("workbook %s into a directory that holds the output with %s %s: fitgen exits with %v: %s", ver, n, mode, errp, trunc(lastLines(logp, 3), 400)), rep)
+						} else if d := dirsEqual(dp, dx); d != "" {
+							w.Violation("output-depends-on-directory-content", fmt.Sprintf("workbook %s into a directory that already holds the output with %s %s: result differs from the output into an empty directory: %s", ver, n, mode, d), rep)
+						}
+						os.RemoveAll(dp)
+					}
+				}
+				os.RemoveAll(dother)
 			}
 			os.RemoveAll(dz)
 			os.RemoveAll(dx)
